@@ -411,6 +411,22 @@ class ArgparseWorld:
 
 
 # --------------------------------------------------------------------------------------------------- the run
+def flatten_object(ev, obj, skip=("file", "tokens", "errors")) -> Dict[str, str]:
+    """Plain attributes of an interpreted object and of the objects it holds (one level): dotted name -> repr."""
+    out: Dict[str, str] = {}
+    for k, v in obj.__dict__.items():
+        if k.startswith("_") or k in skip:
+            continue
+        if isinstance(v, Obj):
+            for k2, v2 in v.__dict__.items():
+                if not k2.startswith("_") and not isinstance(v2, Obj):
+                    out[f"{k}.{k2}"] = ev.py_repr(v2)
+            out[k] = f"<{v._cls}>"
+        else:
+            out[k] = ev.py_repr(v)
+    return out
+
+
 def plan_of(src: str) -> Tuple[List[str], Optional[str]]:
     """Diagnostics asked for by the content of a file, in order of appearance; fatal kind."""
     levels = []
@@ -759,6 +775,7 @@ class World:
             snap = {"debug": context.__dict__.get("debug"), "tokens": context.__dict__.get("tokens")}
             pp = context.__dict__.get("preproc")
             snap["skip_define"] = pp.__dict__.get("skip_define") if isinstance(pp, Obj) else None
+            snap["attrs"] = flatten_object(ev, context)
             ev.trace.append(("run", file, context, snap))
             levels, fatal = plan_of(src)
             errors = ev.getattr(file, "errors")
